@@ -346,6 +346,9 @@ class ErrorHandler:
     @staticmethod
     def _update_error_with_char_pos(error_object):
         # This part is optional as you can always generate these as needed.
+        if 'char_index' in error_object:
+            # Already located: decorating an issue again must not repeat the message suffix.
+            return
         start, end = ErrorHandler._get_tag_span_to_error_object(error_object)
         if start is not None:
             # silence warning in pycharm
